@@ -18,3 +18,11 @@ GROUPS = [
     # the 3-row variant of del/delrows_s exhausts the 20 GiB address-space limit (removed from the registry)
     dels("delcols", ["ILLlib_delcols", "delcols_work"], ["C06", "C07", "C12", "C17"], False),
 ]
+
+BF = "2 structural columns (empty: the matrix is concrete), 3 rows, structurals first; arbitrary row data, optional range values / integer marks, optional basis (arbitrary statuses with 3 basic), optional row / column norms, optional cached solution; a list of exactly %d row indices, each arbitrary (out of range, repeated, any order); all loops completely unwound; allocation failure not explored"
+GROUPS += [
+    Group("del/delrows_b3_n%d" % n, "lib_del.c", tus=LIB, model=MODEL, mem_gb=8, defines=["FN_delrows", "NR=3", "LAYOUT_FIXED", "NUM=%d" % n], dfcc=False, unwind=24, kind="bounded", bound=BF % n, timeout=3000,
+          flags=["--no-malloc-may-fail"], tier="quick", functions=["ILLlib_delrows", "delcols_work"], props=["C05", "C06", "C07", "C12", "C17"], assumed=[ASM],
+          must_fail=["reach_end", "reach_cache_kept"] + (["reach_descending_list_cache_kept"] if n == 2 else []))
+    for n in (1, 2)
+]
